@@ -4,6 +4,7 @@ PROP = dict(
     harness=['c14_hostile.c', 'vf_arr.c', 'vf_ref.c'],
     alloc=True,
     case_timeout=20,
+    replay_config='oom',    # asan + allocation interposer: every oracle of the check
     level_text=('generated-input search: raw byte strings, every / sampled '
                 'truncation of valid encodings, 1-3 byte or bit mutations and '
                 'structured hostile header values for the seven length-taking '
@@ -29,7 +30,7 @@ PROP = dict(
           'hash of (entry point, input bytes, declared length, capacity)'),
     quick=dict(configs=['asan', 'rel', 'oom'], cases=1200000, maxlen=200),
     thorough=dict(configs=['asan', 'rel', 'oom'], cases=8000000, maxlen=600,
-                  fuzz_s=240, fuzz_maxlen=700, setmax=1 << 23),
+                  fuzz_s=240, fuzz_maxlen=900, setmax=1 << 23),
     required_classes=[
         'entry.tagged', 'entry.dictDecode', 'entry.dictDecodeInto',
         'entry.gamma', 'entry.delta', 'entry.bitmap', 'entry.rleRunCount',
